@@ -12,7 +12,9 @@ SITES = {
     "esr/generation/simplifier.py": ["make_changes", "initial_sympify", "sympy_simplify", "expand_or_factor", "load_subs", "check_results", "do_sympy"],
     "esr/generation/duplicate_checker.py": ["main"],
 }
-KEYS = ("comm.", "split_idx", "array_split", "itertools.chain", "change_indices[:i]", "start_idx", "shufidx")
+KEYS = ("comm.", "split_idx", "array_split", "itertools.chain", "change_indices[:i]", "start_idx", "shufidx",
+        # the slice arithmetic derived from split_idx / array_split and the guards that use it
+        "imin", "imax", "len(i)", "i[0]", "i[-1]", "nfun")
 
 
 def simple_statements(fn):
